@@ -53,6 +53,13 @@ func (w *World) longLived() map[*types.TypeName]bool {
 			}
 		}
 	}
+	// the relay-proof gRPC service object lives as long as the node process: state it keeps between calls is process-local
+	if p := w.PkgBy["client/grpc/oracle/proof"]; p != nil {
+		if o, ok := p.Types.Scope().Lookup("proofServer").(*types.TypeName); ok {
+			L[o] = true
+			addFields(namedOf(o.Type()), 0)
+		}
+	}
 	for _, p := range w.Pkgs { // the positive example's stand-in
 		if strings.HasPrefix(p.PkgPath, "bandcheck/testdata/") {
 			if o, ok := p.Types.Scope().Lookup("Keeper").(*types.TypeName); ok {
